@@ -90,12 +90,13 @@ class Callback(T):
     `returns` a type for the result (default None); `raises` exception classes
     the ghost effect may raise into the calling code."""
 
-    def __init__(self, name, effect=None, returns=None, raises=(), is_async=False):
+    def __init__(self, name, effect=None, returns=None, raises=(), is_async=False, with_self=False):
         self.name = name
         self.effect = effect
         self.returns = returns
         self.raises = tuple(raises)
         self.is_async = is_async
+        self.with_self = with_self  # as a model *method*: the effect is called as effect(ghost, receiver, *args)
 
 
 class ListOf(T):
